@@ -43,7 +43,7 @@ ASSUMPTIONS = (
 )
 EXPECTED_PROBES = ("module-file-reloaded-by-later-process", "modtemplate", "mako-render", "get_def-rendered", "non-ascii-source",
                    "uris-differing-in-punctuation", "nested-def-default-from-context", "modulename_callable", "shadowed-in-second-directory",
-                   "relative-uri-from-two-directories")
+                   "relative-uri-from-two-directories", "enable_loop-off", "lossy-encoding-errors")
 
 ENC = {"utf8": "utf-8", "latin1": "latin-1", "cp1251": "cp1251", "ascii": "ascii"}
 DECO = {"utf8": "grüß€Ж", "latin1": "grüßé", "cp1251": "ЖивоЯ", "ascii": "plain"}
@@ -185,10 +185,20 @@ def gen_program(rng, k, uri, enc):
         defs.append('<%%def name="pd%d()">PD(${parent.title()}|${self.title()})</%%def>' % k)
         names.append("pd%d" % k)
         body.append("<<pd%d>>${pd%d()}<</pd%d>>" % (k, k, k))
+    # options that live on the Template object rather than in the text: every path has to carry them over
+    noloop = "control" not in feats and rng.random() < 0.25
+    if noloop:
+        body.append("(${loop})")  # with enable_loop=False `loop` is an ordinary context variable
+    enc_errors = rng.choice(("replace", "xmlcharrefreplace", "backslashreplace")) if rng.random() < 0.25 else None
+    if enc_errors:
+        nm = "ne%d" % k
+        names.append(nm)
+        defs.append('<%%def name="%s()">NE(%s${x})</%%def>' % (nm, DECO[enc]))
+        body.append("<<%s>>${%s()}<</%s>>" % (nm, nm, nm))
     text += "".join(defs) + "".join(body)
-    return {"k": k, "uri": uri, "encoding": enc, "text": text, "files": files, "defs": names, "marker": marker, "features": feats,
+    return {"noloop": noloop, "encoding_errors": enc_errors, "k": k, "uri": uri, "encoding": enc, "text": text, "files": files, "defs": names, "marker": marker, "features": feats,
             "inherit": inherit, "shadow": bool(files) and rng.random() < 0.5,
-            "output_encoding": rng.choice((None, None, "utf-8", "utf-16", "utf-8-sig"))}
+            "output_encoding": "ascii" if enc_errors else rng.choice((None, None, "utf-8", "utf-16", "utf-8-sig"))}
 
 
 def generate(rng, tier, idx, force=None):
@@ -297,6 +307,10 @@ def execute(trace, root):
             probe("shadowed-in-second-directory")
         if p["encoding"] not in ("ascii",):
             probe("non-ascii-source")
+        if p.get("noloop"):
+            probe("enable_loop-off")
+        if p.get("encoding_errors"):
+            probe("lossy-encoding-errors")
     stems = {}
     for p in progs:
         stems.setdefault("".join(c if c.isalnum() else "_" for c in p["uri"]), []).append(p["uri"])
@@ -308,9 +322,12 @@ def execute(trace, root):
 
     def req_for(p, path, **extra):
         r = {"op": "battery", "path": path, "uri": p["uri"], "src": os.path.join(srcdir, p["uri"].lstrip("/")), "srcdir": srcdir,
-             "encoding": ENC[p["encoding"]], "ctx": CTX, "defs": p["defs"], "marker": p["marker"], "keep": True,
-             "dirs": [srcdir, src2], "output_encoding": p.get("output_encoding")}
+             "encoding": ENC[p["encoding"]], "ctx": dict(CTX, loop="LP") if p.get("noloop") else CTX, "defs": p["defs"],
+             "marker": p["marker"], "keep": True, "dirs": [srcdir, src2], "output_encoding": p.get("output_encoding"),
+             "noloop": bool(p.get("noloop")), "encoding_errors": p.get("encoding_errors")}
         r.update(extra)
+        if p.get("noloop") or p.get("encoding_errors"):
+            r["cmd"] = False  # mako-render has no switch for either option
         return r
 
     nodes = []
@@ -399,6 +416,9 @@ def execute(trace, root):
                 if name.startswith("get_def:"):
                     other = ro["renders"].get(name)
                     probe("get_def-rendered")
+                elif p.get("encoding_errors"):
+                    # bytes rendered with a lossy error policy differ from the text paths by design: like with like
+                    other = ro["renders"].get(name)
                 else:
                     other = base
                 if other is None:
@@ -432,7 +452,7 @@ def execute(trace, root):
             full = o["renders"]["render"]
             if full["status"] == "ok":
                 for name, r in sorted(o["renders"].items()):
-                    if not name.startswith(("get_def:fz", "get_def:pd")):
+                    if not name.startswith(("get_def:fz", "get_def:pd", "get_def:ne")):
                         continue
                     dn = name.split(":", 1)[1]
                     m = re.search(r"<<%s>>(.*?)<</%s>>" % (dn, dn), full["text"], re.S)
